@@ -135,6 +135,18 @@ except ImportError:
         return False
 
 
+def _is_index_like(b) -> bool:
+    # what torch.Size accepts as a member: python / numpy integers, 0-d integer tensors
+    if isinstance(b, (int, np.integer)):
+        return True
+    return (
+        isinstance(b, Tensor)
+        and b.ndim == 0
+        and not b.is_floating_point()
+        and not b.is_complex()
+    )
+
+
 class TensorDict(TensorDictBase):
     """A batched dictionary of tensors.
 
@@ -2400,19 +2412,24 @@ class TensorDict(TensorDictBase):
         ERR = "batch size was not specified when creating the TensorDict instance and it could not be retrieved from source."
 
         if is_compiling():
+            # torch.compile cannot trace ``try: torch.Size(obj) except``: the same outcomes
+            # are reached with explicit tests
             if isinstance(batch_size, torch.Size):
                 return batch_size
-            elif isinstance(batch_size, tuple):
-                return torch.Size(batch_size)
-            elif isinstance(batch_size, list):
-                return torch.Size(tuple(batch_size))
             if batch_size is None:
                 return torch.Size([])
             elif isinstance(batch_size, Number):
                 return torch.Size([batch_size])
-            elif isinstance(source, TensorDictBase):
+            elif not isinstance(batch_size, str) and hasattr(batch_size, "__iter__"):
+                # any iterable of integers is a batch size (tuple, list, range, array,
+                # tensor...), as for torch.Size; an iterable with another kind of member
+                # is not, and the source decides (as in eager mode)
+                items = [b for b in batch_size]  # noqa: C416
+                if all(_is_index_like(b) for b in items):
+                    return torch.Size([int(b) for b in items])
+            if isinstance(source, TensorDictBase):
                 return source.batch_size
-            raise ValueError()
+            raise ValueError(ERR)
 
         try:
             return torch.Size(batch_size)
